@@ -1,12 +1,12 @@
-CONSTANTS B = 3  Bufs = {2, 99}  Paths = {"A", "B"}  WithTrunc = TRUE  WithCorrupt = TRUE  FixSeek = TRUE  FixData = TRUE  FixHdr = TRUE
+CONSTANTS B = 3  Bufs = {2, 99}  Paths = {"A", "B"}  WithTrunc = TRUE  WithCorrupt = TRUE  FixSeek = TRUE  FixData = TRUE  FixHdr = FALSE
 CONSTANT Shapes <- ShapesQuick
 SPECIFICATION Spec
 VIEW View
 INVARIANT TypeOK
 INVARIANT TellIsTrue
-INVARIANT ExactOrFail
 INVARIANT OwnData
 INVARIANT NoHang
 INVARIANT IntactExact
 INVARIANT DefectsExplained
+INVARIANT OnlyHeaderSwallowingLeft
 PROPERTY Terminates
